@@ -61,3 +61,11 @@ S["C02"] = dict(title="Restart resumes exactly the unacknowledged set, at any st
     "the store honours the Persistence contract (FileSystem's adherence under stops is C19)", "sort.Slice is modelled as insertion sort calling the real less closure"],
   bounds={"quick":"<= 1 record per run (3 runs), + marker, 3 List orders, 3 limit configurations, 2 generations","thorough":"<= 2 records per run"},
   outside=["more than one record with a Save in progress","stores violating the contract"])
+S["C16"] = dict(title="A damaged Persistence never bricks the session: adopt, warn, connect, go on", technique=TECH+"; AdoptSession on a damaged arbitrary PINV store, observed through resend and a follow-up publish", harnesses=[
+    H("verifH_C16_adopt", "PINV store with <= k outbound records altered / truncated / removed, stray entries, limits in 3 classes: no fatal, warnings for unusable/abandoned records, resend succeeds with genuine packets in order, placeholders match, new publish does not collide", T({"W":2,"W1":1,"damage":1,"orders":1,"markers":1,"maxcls":1,"strays":2}, time_sec=900), T({"W":2,"damage":2,"orders":2,"markers":1,"maxcls":2}, time_sec=3000, maxpaths=5000000), ("abandoned-with-warning","end")),
+    H("verifH_C16_clientid", "damaged client-identifier record: reported, or a connect can succeed", reach=()),
+  ],
+  assumptions=["records forged with a valid checksum are excluded (as the property says); damage is modelled as a failing checksum, a value shorter than 12 bytes, or removal (detection itself is C15)",
+    "observer = resend onto a fault-free connection; 'can connect' is judged by resend returning nil (connect's own protocol is C18)"],
+  bounds={"quick":"<= 2 records per run (<= 6 outbound), 1 damaged, 3 damage kinds, stray entries, ring positions and storage sequence numbers free","thorough":"2 damaged records"},
+  outside=["more than 2 damaged records at once","damage to inbound markers (F11 covers the client-identifier record; the marker case shares its code path)"])
